@@ -520,6 +520,13 @@ def harnesses(tier):   # noqa: F811
 # ---------------------------------------------------------------------------------------------------------------
 # parse_query: the `-> [digits N] [base B]` suffix.  The digit printers downstream assume 2 <= base <= 36.
 
+def _tz_from_str(ex, args):
+    t = deref_all(args[0])
+    if isinstance(t, str) and t in ('GB', 'UTC', 'Japan'):
+        return ex.make_variant('Result', 'Ok', [Struct('Tz', [Opaque('tz:' + t)])])
+    return ex.make_variant('Result', 'Err', ['not a timezone'])
+
+
 def _has_error(v, depth=0):
     v = deref_all(v)
     if depth > 12:
@@ -542,11 +549,12 @@ class ConversionSuffix(Harness):
                 'exactly the base and digit count written, a base outside 2..=36 is an error, nothing panics; a temperature-scale target is '
                 'a scale conversion only when the scale is the whole target (`-> degC / s`, `-> degF m` are compound targets)')
     bounds = ['left-hand side = one identifier; N of 1..3 digits, B of 1..3 digits; target absent, one identifier, a scale, or a scale followed by `/ y` or `y`']
-    TARGETS = [None, 'ident', 'degree', 'degree/ident', 'degree ident', 'ident/degree', 'ident*degree', 'degree^2', 'ident per degree']
+    TARGETS = [None, 'ident', 'degree', 'degree/ident', 'degree ident', 'ident/degree', 'ident*degree', 'degree^2', 'ident per degree',
+               'ident:Gb', 'ident:UTC']     # a unit name (gigabit) whose upper-cased spelling is a zone name, next to a zone name
     expect_classes = ['Convert', 'Error']
     _concrete = None
-    stubs = ((r'^<Tz as FromStr>::from_str$', lambda ex, nc, a: ex.make_variant('Result', 'Err', ['not a timezone']),
-              'chrono_tz::Tz::from_str -> Err (the identifiers used here, x / y / ten, are not zone names)'),)
+    stubs = ((r'^<Tz as FromStr>::from_str$', lambda ex, nc, a: _tz_from_str(ex, a),
+              'chrono_tz::Tz::from_str -> Ok for the exact spellings GB, UTC, Japan (tz database names are case-sensitive), Err otherwise'),)
     DIGITS = [None, 'digits', 'digitsN', 'sci', 'frac']
     BASES = [None, 'base', 'hex', 'oct', 'bin', 'base-eof', 'base-ident']
 
@@ -582,6 +590,8 @@ class ConversionSuffix(Harness):
             toks.append(T('Ident', [bs]))
         if tgt == 'ident':
             toks.append(T('Ident', ['y']))
+        elif tgt and tgt.startswith('ident:'):
+            toks.append(T('Ident', [tgt.split(':')[1]]))
         elif tgt in ('ident/degree', 'ident*degree', 'ident per degree'):
             toks += [T('Ident', ['y']), T({'ident/degree': 'Slash', 'ident*degree': 'Asterisk', 'ident per degree': 'Slash'}[tgt]),
                      T('Degree', [variant(ex, 'Degree', 'Fahrenheit' if tgt == 'ident per degree' else 'Celsius')])]
@@ -632,7 +642,12 @@ class ConversionSuffix(Harness):
         if want_d == 'Digits' and digs.vname == 'Digits':
             obs.append(('digit count is the one written', n_eq(digs.fields[0], ctx['n'])))
         tgt = ctx['tgt']
-        if tgt in (None, 'ident'):
+        if tgt and tgt.startswith('ident:'):
+            nm = tgt.split(':')[1]
+            want = 'Timezone' if nm in ('GB', 'UTC', 'Japan') else 'Expr'
+            obs.append(('the target `%s` is %s (got %s)' % (nm, 'a timezone' if want == 'Timezone' else 'a unit expression, not a timezone', conv.vname),
+                        conv.vname == want))
+        elif tgt in (None, 'ident'):
             obs.append(('target %s' % ('expression' if tgt else 'absent'), conv.vname == ('Expr' if tgt else 'None')))
         elif tgt == 'degree':
             obs.append(('a bare scale is a scale conversion', conv.vname == 'Degree'))
@@ -668,12 +683,15 @@ class ConversionSuffix(Harness):
         elif bs:
             t += ' ' + bs
         t += {None: '', 'ident': '', 'degree': ' degC', 'degree/ident': ' degC / s', 'degree ident': ' degC m', 'ident/degree': ' J / degC',
-              'ident*degree': ' m * degC', 'degree^2': ' degC^2', 'ident per degree': ' J / degF', 0: '', 1: ''}.get(inputs.get('target'), '')
+              'ident*degree': ' m * degC', 'degree^2': ' degC^2', 'ident per degree': ' J / degF', 'ident:Gb': ' Gb', 'ident:utc': ' utc',
+              'ident:UTC': ' UTC', 0: '', 1: ''}.get(inputs.get('target'), '')
         return t, (int(num('b')) if bs == 'base' else None)
 
     def native(self, inputs, label):
         t, b = self._text(inputs)
         tg = str(inputs.get('target') or '')
+        if tg.startswith('ident:'):
+            return [{'mode': 'query', 'text': t.replace('10/3', '1 GB')}, {'mode': 'query', 'text': '1 St -> mSt'}, {'mode': 'query', 'text': '1 m -> Gb'}]
         if 'degree' in tg:
             lhs = {'degree/ident': '300 K/s', 'ident/degree': '3 J/K', 'ident*degree': '3 m K', 'degree^2': '2 K^2', 'ident per degree': '3 J/K'}.get(tg, '300 K')
             return [{'mode': 'query', 'text': t.replace('10/3', lhs)}]
@@ -682,6 +700,11 @@ class ConversionSuffix(Harness):
     def judge(self, inputs, label, obs):
         t, b = self._text(inputs)
         bad = []
+        if str(inputs.get('target') or '').startswith('ident:') and inputs.get('target') != 'ident:UTC':
+            for txt, q in zip((t.replace('10/3', '1 GB'), '1 St -> mSt', '1 m -> Gb'), obs):
+                if 'timezone' in str(q.get('display')):
+                    bad.append('`%s` is taken for a timezone conversion: %s' % (txt, q.get('display')))
+            return bool(bad), '; '.join(bad[:2]) or 'unit-like targets are unit expressions'
         for q in obs:
             if q.get('outcome') == 'panic' or q.get('render_panic'):
                 bad.append('`%s` panics: %s' % (t, q.get('panic') or q.get('render_panic')))
